@@ -94,9 +94,16 @@ Section Features.
     | _ => in_range (ds_min mn) (ds_max mx) (q_depth q) && (dsl_err sph q mn || dsl_err sph q mx)
     end.
 
+  Fixpoint find_idx (comps : list N) (c : N) (i : nat) : option nat :=
+    match comps with
+    | [] => None
+    | c' :: r => if N.eqb c' c then Some i else find_idx r c (S i)
+    end.
+
   (** ** composition models *)
   Inductive comp_model :=
-  | CUniform (mn mx : dsurf) (o : op) (comps : list N) (fracs : list F).
+  | CUniform (mn mx : dsurf) (o : op) (comps : list N) (fracs : list F)
+  | CRandom (mn mx : dsurf) (o : op) (comps : list N) (mins maxs : list F).   (* continental plate only *)
 
   Fixpoint find_comp (comps : list N) (fracs : list F) (c : N) : option F :=
     match comps, fracs with
@@ -104,23 +111,41 @@ Section Features.
     | _, _ => None
     end.
 
-  Definition comp_eval (sph : bool) (q : query) (m : comp_model) (c : N) (old : F) : F :=
+  (** [tape] is the stream of uniform draws in [0,1) of the world's random engine, [t] the position *)
+  Definition comp_eval (tape : nat -> F) (sph : bool) (q : query) (m : comp_model) (c : N) (st : F * nat) : F * nat :=
+    let '(old, t) := st in
     match m with
     | CUniform mn mx o comps fracs =>
         let d := q_depth q in
         if in_range (ds_min mn) (ds_max mx) d then
           if in_range (dsl sph q mn) (dsl sph q mx) d then
             match find_comp comps fracs c with
-            | Some f => apply_op o old f
-            | None => match o with OReplace => f0 | _ => old end
+            | Some f => (apply_op o old f, t)
+            | None => (match o with OReplace => f0 | _ => old end, t)
             end
-          else old
-        else old
+          else (old, t)
+        else (old, t)
+    | CRandom mn mx o comps mins maxs =>
+        let d := q_depth q in
+        if in_range (ds_min mn) (ds_max mx) d then
+          if in_range (dsl sph q mn) (dsl sph q mx) d then
+            match find_idx comps c 0 with
+            | Some i =>
+                (* the bounds of the matching composition; a single pair applies to all *)
+                let j := if Nat.ltb i (length mins) && Nat.ltb i (length maxs) then i else 0 in
+                let a := nth j mins f0 in
+                let b := nth j maxs f0 in
+                (* std::uniform_real_distribution(a,b): canonical * (b - a) + a *)
+                (apply_op o old ((tape t * (b - a)) + a), S t)
+            | None => (match o with OReplace => f0 | _ => old end, t)
+            end
+          else (old, t)
+        else (old, t)
     end.
 
   Definition comp_err (sph : bool) (q : query) (m : comp_model) : bool :=
     match m with
-    | CUniform mn mx _ _ _ =>
+    | CUniform mn mx _ _ _ | CRandom mn mx _ _ _ _ =>
         in_range (ds_min mn) (ds_max mx) (q_depth q) && (dsl_err sph q mn || dsl_err sph q mx)
     end.
 
@@ -145,15 +170,54 @@ Section Features.
   (** ** grains models *)
   (** a grains block is laid out as k sizes followed by k row-major 3x3 matrices (grains.cc) *)
   Inductive grains_model :=
-  | GUniform (mn mx : dsurf) (comps : list N) (mats : list (list F)) (sizes : list F).
+  | GUniform (mn mx : dsurf) (comps : list N) (mats : list (list F)) (sizes : list F)
+  | GRandom (mn mx : dsurf) (comps : list N) (sizes : list F) (normalize : list bool)
+            (defl : option (list F * list (list F))).   (* deflections and basis matrices of the deflected variant *)
 
-  Fixpoint find_idx (comps : list N) (c : N) (i : nat) : option nat :=
-    match comps with
-    | [] => None
-    | c' :: r => if N.eqb c' c then Some i else find_idx r c (S i)
+  (** Arvo's random rotation from three draws (random_uniform_distribution*.cc), row-major;
+      [defl] = 1 for the non-deflected model (x * 1.0 = x exactly) *)
+  Definition arvo (u1 u2 u3 defl : F) : list F :=
+    let theta := ((f2 * fpi) * u1) * defl in
+    let phi := (f2 * fpi) * u2 in
+    let z := (f2 * u3) * defl in
+    let r := fsqrt z in
+    let Vx := fsin phi * r in
+    let Vy := fcos phi * r in
+    let Vz := fsqrt (f2 - z) in
+    let st := fsin theta in
+    let ct := fcos theta in
+    let Sx := (Vx * ct) - (Vy * st) in
+    let Sy := (Vx * st) + (Vy * ct) in
+    [ (Vx * Sx) - ct; (Vx * Sy) - st; Vx * Vz;
+      (Vy * Sx) + st; (Vy * Sy) - ct; Vy * Vz;
+      Vz * Sx; Vz * Sy; f1 - z ].
+
+  (** Utilities::multiply_3x3_matrices, row-major lists of 9 *)
+  Definition mat_mul (a b : list F) : list F :=
+    let e m i j := nth ((i * 3) + j)%nat m f0 in
+    flat_map (fun i => map (fun j => ((f0 + (e a i 0%nat * e b 0%nat j)) + (e a i 1%nat * e b 1%nat j)) + (e a i 2%nat * e b 2%nat j)) [0; 1; 2]%nat) [0; 1; 2]%nat.
+
+  (** k random rotations (3 draws each), then k sizes (1 draw each when the fixed size is negative) *)
+  Fixpoint random_rotations (tape : nat -> F) (k : nat) (t : nat) (defl : F) (basis : option (list F)) : list (list F) * nat :=
+    match k with
+    | O => ([], t)
+    | S k' =>
+        let m := arvo (tape t) (tape (t + 1)%nat) (tape (t + 2)%nat) defl in
+        let m := match basis with Some b => mat_mul m b | None => m end in
+        let '(rest, t') := random_rotations tape k' (t + 3)%nat defl basis in
+        (m :: rest, t')
     end.
 
-  Definition grains_eval (sph : bool) (q : query) (m : grains_model) (c k : N) (old : list F) : list F :=
+  Fixpoint random_sizes (tape : nat -> F) (k : nat) (t : nat) (sz : F) : list F * nat :=
+    match k with
+    | O => ([], t)
+    | S k' =>
+        if sz <? f0 then let '(rest, t') := random_sizes tape k' (S t) sz in (tape t :: rest, t')
+        else let '(rest, t') := random_sizes tape k' t sz in (sz :: rest, t')
+    end.
+
+  Definition grains_eval (tape : nat -> F) (sph : bool) (q : query) (m : grains_model) (c k : N) (st : list F * nat) : list F * nat :=
+    let '(old, t) := st in
     match m with
     | GUniform mn mx comps mats sizes =>
         let d := q_depth q in
@@ -164,16 +228,36 @@ Section Features.
                 let kk := N.to_nat k in
                 let sz := nth i sizes f0 in
                 let size := if sz <? f0 then f1 / fofZ (Z.of_N k) else sz in
-                repeat size kk ++ concat (repeat (firstn 9 (nth i mats [] ++ repeat f0 9)) kk)
-            | None => old
+                (repeat size kk ++ concat (repeat (firstn 9 (nth i mats [] ++ repeat f0 9)) kk), t)
+            | None => (old, t)
             end
-          else old
-        else old
+          else (old, t)
+        else (old, t)
+    | GRandom mn mx comps sizes normalize defl =>
+        let d := q_depth q in
+        if in_range (ds_min mn) (ds_max mx) d then
+          if in_range (dsl sph q mn) (dsl sph q mx) d then
+            match find_idx comps c 0 with
+            | Some i =>
+                let kk := N.to_nat k in
+                let '(dfl, basis) := match defl with
+                                     | Some (ds, bs) => (nth i ds f0, Some (firstn 9 (nth i bs [] ++ repeat f0 9)))
+                                     | None => (f1, None)
+                                     end in
+                let '(mats, t1) := random_rotations tape kk t dfl basis in
+                let '(szs, t2) := random_sizes tape kk t1 (nth i sizes f0) in
+                let total := fold_left (fun a s => a + s) szs f0 in
+                let szs := if nth i normalize false then map (fun s => s * (f1 / total)) szs else szs in
+                (szs ++ concat mats, t2)
+            | None => (old, t)
+            end
+          else (old, t)
+        else (old, t)
     end.
 
   Definition grains_err (sph : bool) (q : query) (m : grains_model) : bool :=
     match m with
-    | GUniform mn mx _ _ _ =>
+    | GUniform mn mx _ _ _ | GRandom mn mx _ _ _ _ =>
         in_range (ds_min mn) (ds_max mx) (q_depth q) && (dsl_err sph q mn || dsl_err sph q mx)
     end.
 
@@ -203,7 +287,7 @@ Section Features.
 
   Definition vec_of (l : list F) : F * F * F := (nth 0 l f0, nth 1 l f0, nth 2 l f0).
 
-  Definition area_paint (g : globals) (sph : bool) (a : area_feature) (q : query)
+  Definition area_paint (g : globals) (tape : nat -> F) (sph : bool) (a : area_feature) (q : query)
              (p : prop_req) (t : nat) (blk : list F) : list F * nat :=
     let mnl := dsl sph q (af_min a) in
     let mxl := dsl sph q (af_max a) in
@@ -211,9 +295,9 @@ Section Features.
     | PTemp =>
         ([fold_left (fun old m => temp_eval g (af_kind a) sph q mnl mxl m old) (af_temp a) (nth 0 blk f0)], t)
     | PComp c =>
-        ([fold_left (fun old m => comp_eval sph q m c old) (af_comp a) (nth 0 blk f0)], t)
+        let '(v, t') := fold_left (fun st m => comp_eval tape sph q m c st) (af_comp a) (nth 0 blk f0, t) in ([v], t')
     | PGrains c k =>
-        (fold_left (fun old m => grains_eval sph q m c k old) (af_grains a) blk, t)
+        fold_left (fun st m => grains_eval tape sph q m c k st) (af_grains a) (blk, t)
     | PTag => ([af_tag a], t)
     | PVel =>
         let '(vx, vy, vz) := fold_left (fun old m => vel_eval sph q m old) (af_vel a) (f0, f0, f0) in
@@ -229,10 +313,10 @@ Section Features.
     | PVel => existsb (vel_err sph q) (af_vel a)
     end.
 
-  Definition area_to_feature (g : globals) (sph : bool) (a : area_feature) : @feature F :=
+  Definition area_to_feature (g : globals) (tape : nat -> F) (sph : bool) (a : area_feature) : @feature F :=
     {| ft_covers := area_covers sph a;
        ft_cov_err := area_cov_err sph a;
        ft_paint_err := area_paint_err sph a;
-       ft_paint := area_paint g sph a;
+       ft_paint := area_paint g tape sph a;
        ft_tag := af_tag a |}.
 End Features.
